@@ -15,8 +15,9 @@ PadByte == 238          \* 0xEE in alignment padding
 NbrByte == 221          \* 0xDD payload of the neighbouring tag
 FillA(i) == (i * 7 + 13) % 251
 FillB(i) == (i * 11 + 5) % 256
-\* v = 0, 1: two marker fills; v = 2: all zeros; v = 3: all ones (values a decoder might treat specially)
-Fill(v, i) == CASE v = 0 -> FillA(i) [] v = 1 -> FillB(i) [] v = 2 -> 0 [] OTHER -> 255
+\* v = 0, 1: two marker fills (ascending with the position); v = 2: all zeros; v = 3: all ones
+\* v = 4: descending with the position (of two adjacent fields the later one holds the smaller value)
+Fill(v, i) == CASE v = 0 -> FillA(i) [] v = 1 -> FillB(i) [] v = 2 -> 0 [] v = 4 -> 250 - (i % 250) [] OTHER -> 255
 
 Override(b, off, x) == [i \in 1..Len(b) |-> IF i > off /\ i <= off + Len(x) THEN x[i - off] ELSE b[i]]
 
